@@ -36,6 +36,11 @@ def cases(seed, tier):
     xfs = ["rot", "reflect", "translate", "scale", "axis", "sim"]
     out = [{"fam": "static", "xf": xfs[i % 6], "seed": [seed, 6, i], "count": 2} for i in range(72 if q else 1000)]
     out += [{"fam": "units", "which": ["time", "length"][i % 2], "seed": [seed, 6, 10 ** 5 + i]} for i in range(24 if q else 300)]
+    dumps = ["initial_furrow.dmp"] if q else ["initial_furrow.dmp", "last_furrow.dmp", "12_12/step_22.dmp",
+                                              "furrow_gauss_velocity/stage4.dmp"]
+    for j, f in enumerate(dumps):
+        for x in (["rot", "sim"] if q else ["rot", "reflect", "translate", "scale", "sim", "rot"]):
+            out.append({"fam": "fixture", "file": f, "xf": x, "seed": [seed, 6, 2 * 10 ** 5 + 10 * j + len(out)]})
     return out
 
 
@@ -293,12 +298,125 @@ def _units_case(case, mon, sigs, hist, metrics):
     sigs.append(["units", case["which"], len(at0.cells), Aa.shape[1], round(np.log10(factor))])
 
 
+def _fixture_case(case, mon, sigs, hist, metrics):
+    """a shipped Surface Evolver mesh (real, noisy arcs) in two poses: same ids in both, so rows / columns correspond"""
+    import os
+    from fv import env
+    from fv.oracle import fb
+    import forsys as fs
+    from forsys import surface_evolver as se, frames, virtual_edges as ve
+    rng = np.random.default_rng(case["seed"])
+    path = os.path.join("/repo/tests/data", case["file"])
+    fit = ["dlite", "taubinSVD"][int(rng.integers(2))]
+    with env.Capture() as cap:
+        la, lb = se.SurfaceEvolver(path), se.SurfaceEvolver(path)
+        zs = np.array([complex(v.x, v.y) for v in la.vertices.values()])
+        d = max(zs.real.max() - zs.real.min(), zs.imag.max() - zs.imag.min())
+        xf = case["xf"]
+        th = float(rng.uniform(0, 2 * np.pi)) if xf in ("rot", "reflect", "sim") else 0.0
+        refl = xf == "reflect" or (xf == "sim" and bool(rng.integers(2)))
+        sc = float(10 ** rng.uniform(-3, 3)) if xf in ("scale", "sim") else 1.0
+        sh = complex(*rng.uniform(-1, 1, 2)) * d * sc * float(10 ** rng.uniform(0, 3)) if xf in ("translate", "sim") else 0j
+        for v in lb.vertices.values():
+            z = complex(v.x, v.y)
+            z = sc * np.exp(1j * th) * (np.conj(z) if refl else z) + sh
+            v.x, v.y = float(z.real), float(z.imag)
+        sols = []
+        for lat in (la, lb):
+            fr = frames.Frame(0, lat.vertices, lat.edges, lat.cells, gt=True)
+            s_ = fs.ForSys({0: fr})
+            s_.build_force_matrix(when=0, circle_fit_method=fit)
+            s_.solve_stress(when=0, allow_negatives=False)
+            sols.append((s_, fr))
+    (sa, fa), (sb, fb_) = sols
+    ma, mb = sa.force_matrices[0], sb.force_matrices[0]
+    mon.count("pairs")
+    hist["xf:" + xf] = hist.get("xf:" + xf, 0) + 1
+    if ma.big_edges_to_use != mb.big_edges_to_use or ma.map_vid_to_row != mb.map_vid_to_row or ma.matrix.shape != mb.matrix.shape:
+        mon.fail("structure", "same interfaces and equations in both poses", xf=xf, file=case["file"])
+        return
+
+    def R(t):
+        return np.exp(1j * th) * (np.conj(t) if refl else t)
+
+    def predicted(frame, path_ids, vid):
+        """(correctly oriented tangent, what the per-component sign forcing makes of it) from public data only"""
+        vs = [frame.vertices[i] for i in path_ids]
+        vj = frame.vertices[vid]
+        nb = vs[1] if vs[0].id == vid else vs[-2]
+        fsg = complex(nb.x - vj.x, nb.y - vj.y)
+        z = np.array([complex(v.x, v.y) for v in vs])
+        ch = z[-1] - z[0]
+        dev = np.abs(((z - z[0]).conjugate() * ch).imag).max() / max(abs(ch) ** 2, 1e-300) if len(z) > 2 else 0.0
+        if len(vs) == 2 or dev <= 1e-12:
+            t = fsg / abs(fsg)
+        else:
+            xc, yc = ve.calculate_circle_center(vs, method=fit)
+            t = complex(-(vj.y - yc), vj.x - xc)
+            t = t / abs(t)
+            if (t.conjugate() * fsg).real < 0:
+                t = -t
+        return t, fb.q_mirror(t, fsg)
+    A, B = np.array(ma.matrix, float), np.array(mb.matrix, float)
+    straddles = 0
+    tolc = 1e-6 if fit == "taubinSVD" else 5e-4          # SE arcs are noisy: the two independent dlite fits differ more
+    obs = 0.0
+    for vid, row in ma.map_vid_to_row.items():
+        for c in range(A.shape[1]):
+            ca, cb = complex(A[row, c], A[row + 1, c]), complex(B[row, c], B[row + 1, c])
+            if ca == 0 and cb == 0:
+                continue
+            mon.count("coefficients:compared")
+            if abs(cb - R(ca)) <= tolc:
+                obs = max(obs, abs(cb - R(ca)))
+                continue
+            ta, qa = predicted(fa, ma.big_edges_to_use[c], vid)
+            tb, qb = predicted(fb_, mb.big_edges_to_use[c], vid)
+            if (abs(qa - ta) > tolc or abs(qb - tb) > tolc) and abs(ca - qa) <= tolc and abs(cb - qb) <= tolc and abs(tb - R(ta)) <= 10 * tolc:
+                straddles += 1
+                continue
+            mon.fail("coefficient", "the assembled coefficient pairs rotate or reflect with the tissue", got=[cb.real, cb.imag],
+                     want=[R(ca).real, R(ca).imag], xf=xf, fit=fit, file=case["file"])
+            return
+    xa = np.array([b.tension for b in fa.internal_big_edges])
+    xb = np.array([b.tension for b in fb_.internal_big_edges])
+    Ma, ra = fb.augment(A)
+    za, _ = fb.nnls_ref(Ma, ra)
+    zb, _ = fb.nnls_ref(*fb.augment(B))
+    s = np.linalg.svd(Ma, compute_uv=False)
+    cond = s.max() / max(s.min(), 1e-300)
+    tol = (1e-6 + 10 * obs * np.sqrt(A.shape[1])) * cond
+    mon.count("tensions:compared")
+    d = float(np.abs(xa - xb).max())
+    lam = max(abs(za[-1]), abs(zb[-1]))
+    if tol > 0.05:
+        hist["tolerance-too-coarse"] = hist.get("tolerance-too-coarse", 0) + 1
+    elif d > tol:
+        self_ok = np.abs(xa - za[:-1]).max() <= tol and np.abs(xb - zb[:-1]).max() <= tol
+        detail = dict(diff=d, tol=tol, xf=xf, fit=fit, file=case["file"], straddled_coefficients=straddles, multiplier=float(lam))
+        if not self_ok:
+            mon.fail("tension", "reported tensions are not the optimum of the pose's own system", **detail)
+        elif straddles:
+            mon.fail("F-MIRROR", "static tension of every physical interface is unchanged by the transform", **detail)
+        elif lam > 1e-7:
+            mon.fail("F-MULTIPLIER-FRAME", "static tension of every physical interface is unchanged by the transform", **detail)
+        else:
+            mon.fail("tension", "static tension of every physical interface is unchanged by the transform", **detail)
+    else:
+        metrics["fixture_tension_diff_over_tol"] = max(metrics.get("fixture_tension_diff_over_tol", 0), d / tol)
+    if cap.unraisable:
+        mon.fail("unraisable", "no destructor raises", events=cap.unraisable[:2])
+    sigs.append(["fixture", case["file"], xf, fit, straddles])
+
+
 def run_case(case):
     from fv import contracts
     mon = contracts.Monitor()
     sigs, hist, metrics = [], {}, {}
     if case["fam"] == "static":
         _static_case(case, mon, sigs, hist, metrics)
+    elif case["fam"] == "fixture":
+        _fixture_case(case, mon, sigs, hist, metrics)
     else:
         _units_case(case, mon, sigs, hist, metrics)
     res = {"counters": dict(mon.evals), "hist": hist, "metrics": metrics}
